@@ -7,8 +7,8 @@ from ..core import Ctx, dec
 from .. import outputcrawl as oc
 
 THEOREMS = ["Output.url_resolves_iff", "Output.url_resolves_iff_visible", "Output.own_page_exists",
-            "Output.member_anchor_exists", "Output.links_resolve_partial", "Output.links_resolve_counterexample",
-            "Output.links_resolve_rows", "Output.late_ctx_ok", "Output.inhierarchy_resolves", "Output.letter_links_resolve",
+            "Output.member_anchor_exists", "Output.links_resolve", "Output.links_resolve_counterexample_field_old",
+            "Output.inhierarchy_resolves", "Output.letter_links_resolve",
             "Output.letter_of_visible", "Output.shorten_resolves", "Output.ctx_ok", "Output.shown_page",
             "Output.visible_reachable", "Output.superseded_invisible", "Output.superseded_not_reachable",
             "Output.inside_superseded_not_reachable", "Output.mem_reached_iff", "Output.mem_pages_iff", "Output.origin",
@@ -48,13 +48,7 @@ ASSUMPTIONS = [
 ]
 PARTIAL = {
     "Output.url_resolves_iff": "full, with the one shared address spelled out: index.html of a hidden single root is the project's "
-                               "IndexPage (a09aa28)",
-    "Output.links_resolve_partial": "29 of the 30 producer rows without any hypothesis (Output.links_resolve_rows); the 30th - links in @see / "
-                                    "@note / @author / @since fields, which FieldHandler.format() formats after format_docstring's "
-                                    "switch_context(obj) has ended - only when the linker of the docstring's source remembers the page the "
-                                    "docstring is displayed on (lateOk: every docstring that is not inherited). Output.links_resolve_counterexample: "
-                                    "an inherited docstring with `@see: L{sibling}` (open finding dead-link:docstring-field:shortened-for-another-page, "
-                                    "proposed repair fixes/C11-late-fields-link-context.diff)",
+                               "IndexPage (a09aa28); Output.links_resolve is full for all 30 producer rows",
     "Output.inhierarchy_resolves": "full under hierWf (evaluated by the driver on every real System: every visible class is registered, "
                                    "has no blank in its names, bases/baseobjects have the same length, a visible resolved base is a class "
                                    "that lists it among its subclasses, the chain of first visible bases ends); not covered: a root module "
@@ -62,9 +56,9 @@ PARTIAL = {
 }
 EXPLANATION = ("Output model = url/page_object/isVisible/taglink/_writeDocsFor + every link producer with its guard, following the "
                "fixed code (cb98646 superseded duplicates are invisible, aaed9bd taglink guard, 1da744b docstring link context, "
-               "97be2c0 class-index dict, 07382d3 parentMod of moved members, 4b6324b root rows, f972163 linker page after reparent, a09aa28 IndexPage when no root is visible, 5201211 root alias). `links_resolve_partial` is proved at full strength for "
-               "every producer row but the late-formatted docstring fields (row fieldXref, modelled as the code does it: the source "
-               "linker's remembered page); the pre-fix behaviour is kept as `...Old` definitions with `_old` counterexamples.")
+               "97be2c0 class-index dict, 07382d3 parentMod of moved members, 4b6324b root rows, f972163 linker page after reparent, a09aa28 IndexPage when no root is visible, 5201211 root alias, 0ff33e4 late-formatted fields). `links_resolve` is proved at full strength for "
+               "every producer row (30; row fieldXref = links in late-formatted @see/@note/@author/@since fields, under switch_context(obj) "
+               "since 0ff33e4); the pre-fix behaviour is kept as `...Old` definitions with `_old` counterexamples.")
 
 
 def nontrivial(res) -> bool:
